@@ -48,6 +48,7 @@ func devMain(args []string) {
 	keep := fs.String("keep", "/tmp/gowp-dev", "directory for smt files")
 	verbose := fs.Bool("v", false, "print discharged obligations too")
 	lemmas := fs.Bool("lemmas", false, "also run lemmas whose name contains the substring")
+	only := fs.String("only", "", "keep only obligations whose name contains this substring")
 	fs.Parse(args)
 	sub := fs.Arg(0)
 	t0 := time.Now()
@@ -80,6 +81,15 @@ lemmasOnly:
 			continue
 		}
 		fc := e.VerifyFunc(c)
+		if *only != "" {
+			var keep []*Oblig
+			for _, o := range fc.obligs {
+				if strings.Contains(o.Name, *only) {
+					keep = append(keep, o)
+				}
+			}
+			fc.obligs = keep
+		}
 		fcs = append(fcs, fc)
 		obs = append(obs, fc.obligs...)
 	}
